@@ -253,6 +253,11 @@ def pc_cases(draw):
         # library's sub-directory below libdir
         'prefix': draw(st.sampled_from(['pfx', 'my pfx'])),
         'libsub': draw(st.sampled_from(['', '', 'sub'])),
+        # names of the package's library and of its private static dependency
+        'libname': draw(st.sampled_from(['foo', 'shell', 'util', 'thread'])),
+        'depname': draw(st.sampled_from(['bar', 'xml', 'pool'])),
+        # a two-word link option the private static dependency forwards
+        'dep_uopt': draw(st.booleans()),
         'deps': deps,
     }
 
@@ -277,18 +282,24 @@ def render_pc(case, src, depdir):
           'int foo(void);\n#define API{} 1\n'.format(i))
         L.append("inc{} = header_directory({!r}, include='*.h')".format(
             i, d))
-    w(os.path.join(src, 'bar.c'), 'int bar(void){return 40;}\n')
+    w(os.path.join(src, 'bar.c'), 'int bar(void){return 40;}\n'
+      'int bar2(void){return 0;}\n')
     w(os.path.join(src, 'foo.c'), 'int bar(void);\nint foo(void)'
       '{return 2 + bar();}\n')
     if case['private_static_dep']:
-        L.append("bar = static_library('bar', ['bar.c'])")
+        L.append("bar = static_library({!r}, ['bar.c']{})".format(
+            case.get('depname', 'bar'),
+            ", link_options=['-u', 'bar', '-u', 'bar2']"
+            if case.get('dep_uopt') else ''))
         L.append("foo = library({!r}, ['foo.c'], libs=[bar])".format(
-            posixpath.join(case.get('libsub', ''), 'foo')))
+            posixpath.join(case.get('libsub', ''),
+                           case.get('libname', 'foo'))))
     else:
         w(os.path.join(src, 'foo.c'),
           'int foo(void){return 42;}\n')
         L.append("foo = library({!r}, ['foo.c'])".format(
-            posixpath.join(case.get('libsub', ''), 'foo')))
+            posixpath.join(case.get('libsub', ''),
+                           case.get('libname', 'foo'))))
     incs = ', '.join('inc{}'.format(i) for i in range(len(case['incdirs'])))
     req = [(n, _spec_str(d['public'])) if d['public'] else n
            for n, d in case['deps'].items() if d['public'] is not None]
@@ -517,7 +528,7 @@ def prop_pcfile(rec):
             if case['auto_fill'] and not bad_dep:
                 pcp = [os.path.join(bld, 'pkgconfig'), depdir]
                 rc, out, err = pkgconf(['--libs', 'c17nolibs'], pcp)
-                if rc != 0 or '-lfoo' in pc_split(out.strip() or '') or \
+                if rc != 0 or \
                         any(f.startswith('-l') for f in
                             pc_split(out.strip()) or []):
                     raise Violation('pc/explicit-empty/libs', "pkg_config("
@@ -604,22 +615,34 @@ def prop_pcfile(rec):
                                                      else []) + ['c17pkg'],
                                        pcpath, dis)
                 lflags = pc_split(out.strip()) or []
-                if rc != 0 or '-lfoo' not in lflags or not any(
+                lname = '-l' + case.get('libname', 'foo')
+                if rc != 0 or lname not in lflags or not any(
                         f.startswith('-L') and os.path.normpath(f[2:]) ==
                         os.path.normpath(libdir) for f in lflags):
                     raise Violation('pc/' + what + '/libs', '--libs gives '
-                                    '{!r} (exit {}), expected -L{} -lfoo'
-                                    .format(lflags, rc, libdir), case)
+                                    '{!r} (exit {}), expected -L{} {}'
+                                    .format(lflags, rc, libdir, lname), case)
                 for o in case['link_options']:
                     if o not in lflags:
                         raise Violation('pc/' + what + '/link-option',
                                         '--libs {!r} lacks {!r}'.format(
                                             lflags, o), case)
                 if static and case['private_static_dep'] and \
-                        '-lbar' not in lflags:
+                        case.get('dep_uopt'):
+                    us = [lflags[k + 1] for k, f in enumerate(lflags[:-1])
+                          if f == '-u']
+                    if us != ['bar', 'bar2']:
+                        raise Violation(
+                            'pc/' + what + '/forwarded-link-options',
+                            "the private static dependency forwards ['-u', "
+                            "'bar', '-u', 'bar2'] but --libs --static gives "
+                            '{!r}'.format(lflags), case)
+                if static and case['private_static_dep'] and \
+                        '-l' + case.get('depname', 'bar') not in lflags:
                     raise Violation('pc/' + what + '/libs-private',
                                     '--libs --static {!r} lacks the private '
-                                    'static dependency -lbar'.format(lflags),
+                                    'static dependency -l{}'.format(
+                                        lflags, case.get('depname', 'bar')),
                                     case)
                 # a consumer builds against the package and runs
                 w = sandbox.write_file
